@@ -76,17 +76,17 @@ def cases(tier, seed):
     thorough = tier == 'thorough'
     for idx, _bundle in enumerate(bases):
         out.append(dict(id='flips-%d' % idx, kind='flips', base=idx))
-        out.append(dict(id='bursts-%d' % idx, kind='bursts', base=idx, seed=seed * 977 + idx, count=1500 if thorough else 300))
+        out.append(dict(id='bursts-%d' % idx, kind='bursts', base=idx, seed=seed * 977 + idx, count=4500 if thorough else 300))
     # exhaustive single-octet substitution, sliced by offset so that the shards balance
     for idx in (range(0, len(bases), 4) if thorough else (1, len(bases) - 1)):
         size = len(bpv7.encode(bases[idx]))
         step = 8
         for lo in range(0, size, step):
             out.append(dict(id='bytesub-%d-%d' % (idx, lo), kind='bytesub', base=idx, lo=lo, hi=lo + step))
-    nbig = 60 if thorough else 8
+    nbig = 240 if thorough else 8
     for idx in range(nbig):
         out.append(dict(id='big-%d' % idx, kind='big', seed=seed * 31337 + idx, count=800 if thorough else 250))
-    nout = 60 if thorough else 8
+    nout = 240 if thorough else 8
     for idx in range(nout):
         out.append(dict(id='out-%d' % idx, kind='out', seed=seed * 7919 + idx, count=120 if thorough else 40))
     return out
